@@ -56,12 +56,8 @@ def gen(tier, rng):
         out.append(Case("caddq", "-", [a], t))
     for a in (-Q - 1, -Q, -Q + 1, -1, 0, 1, Q - 1, Q, Q + 1, -(1 << 31), (1 << 31) - 1, (1 << 31) - Q, (1 << 31) - Q - 1):
         cq(a, "edge")
-    if tier == "thorough":
-        for a in range(-Q + 1, Q):
-            cq(a)
-    else:
-        for _ in range(n):
-            cq(rng.randrange(-Q + 1, Q))
+    for _ in range(min(n, 200000)):
+        cq(rng.randrange(-Q + 1, Q))
     return out
 
 
@@ -89,3 +85,42 @@ def oracle(c, outs):
         if r != a % Q:
             return "caddq(%d) = %d, expected %d" % (a, r, a % Q)
     return None
+
+
+def extra(rep, cov, tier, rng):
+    """Sweeps with checksums (model vs crate) and the predicate evaluated on every input by the harness:
+    caddq over ALL of (-q, q) in the thorough tier (exhaustive), windows in the quick tier; reduce32 over windows of its domain."""
+    from vcore import MODELRUN, DVH_REL, DVH_DEV, run_runner
+    lines, meta = [], []
+    def add(fnid, lo, hi):
+        lines.append("%d sweep - i%d 0 %d %d" % (len(lines), fnid, lo, hi)); meta.append((fnid, lo, hi))
+    if tier == "thorough":
+        CH = 1 << 19
+        for lo in range(-Q + 1, Q, CH):
+            add(2, lo, min(Q, lo + CH))
+        for _ in range(64):
+            lo = rng.randrange(-(1 << 31), (1 << 31) - (1 << 22) - CH)
+            add(3, lo, lo + CH)
+        add(3, (1 << 31) - (1 << 22) - CH, (1 << 31) - (1 << 22)); add(3, -(1 << 31), -(1 << 31) + CH)
+    else:
+        add(2, -Q + 1, -Q + 1 + 60000); add(2, -30000, 30000); add(2, Q - 60000, Q)
+        add(3, (1 << 31) - (1 << 22) - 60000, (1 << 31) - (1 << 22)); add(3, -(1 << 31), -(1 << 31) + 60000)
+        lo = rng.randrange(-(1 << 31), (1 << 31) - (1 << 23)); add(3, lo, lo + 60000)
+    (m, _), (d, _), (r, _) = run_runner(MODELRUN, lines, 16, 3000), run_runner(DVH_DEV, lines, 8, 3000), run_runner(DVH_REL, lines, 8, 3000)
+    total = 0
+    names = {2: "caddq", 3: "reduce32"}
+    for i, (fnid, lo, hi) in enumerate(meta):
+        total += hi - lo
+        mo, do, ro = m.get(i, "").split(), d.get(i, "").split(), r.get(i, "").split()
+        case = {"fn": "sweep", "copy": "-", "args": ["i%d" % fnid, "0", str(lo), str(hi)]}
+        if len(do) < 5 or do[0] != "ok" or do != ro:
+            rep.violation("sweep of %s over [%d,%d): checked and release builds differ or failed" % (names[fnid], lo, hi), {"cases": [case]}, False)
+        elif int(do[3]) != 0 or int(do[2]) != 0:
+            rep.violation("%s violates its specification (or panics) at input %s; %s failing inputs in [%d,%d)" % (names[fnid], do[4], do[3], lo, hi),
+                          {"cases": [{"fn": names[fnid], "copy": "-", "args": [do[4]]}]}, True)
+        elif mo[:3] != do[:3]:
+            rep.violation("sweep of %s over [%d,%d): crate output checksum differs from the model's" % (names[fnid], lo, hi),
+                          {"cases": [case], "broken": ["correspondence %s" % names[fnid]]}, False)
+    cov["swept_inputs"] = total
+    cov["caddq_exhaustive"] = (tier == "thorough")
+    cov["evaluations"] = cov.get("evaluations", 0) + total
